@@ -118,8 +118,9 @@ def mapImplItems (f : T → T) : T → T
   | .node "ItemImpl" [] [a, d, u, g, tr, s, .node "List" [] items] => .node "ItemImpl" [] [a, d, u, g, tr, s, tList (items.map f)]
   | t => t
 
-/-- one helper impl (disjoint.rs:53-77): the member with its trait path renamed to the helper trait and the member's
-    row prepended to the trait arguments -/
+/-- one helper impl (disjoint.rs:53-80): the member with its trait path replaced by the helper trait (the LAST segment of the
+    member's trait path renamed, leading segments and a leading `::` dropped: the helper trait lives next to the helper impls)
+    and the member's row prepended to the trait arguments -/
 def helperImpl (idx : Nat) (inherentPath : Option T) (idents : List (BKey × String)) (row : List (Option T)) (member : T) : Option T :=
   let member' := match inherentPath with
     | some p => mapImplItems setVisInherited (setImplTrait member p)
@@ -135,7 +136,7 @@ def helperImpl (idx : Nat) (inherentPath : Option T) (idents : List (BKey × Str
             | .node "PathArguments::AngleBracketed" [] [c2, .node "List" [] old] => some (.node "PathArguments::AngleBracketed" [] [c2, tList (row' ++ old)])
             | _ => none
           (match newArgs with
-           | some na => some (setImplTrait member' (pathNode (pathLead p) (initSegsOf p ++ [.node "PathSegment" [] [tIdent (genIdentStr x idx), na]])))
+           | some na => some (setImplTrait member' (pathNode noLead [.node "PathSegment" [] [tIdent (genIdentStr x idx), na]]))
            | none => none)
       | _ => none
 
@@ -548,8 +549,10 @@ def traitItemOfImplItem : T → Gen T
 
 /-- the self type's last-segment identifier when it can be re-parsed as a trait name (`trait #self_ty …`) -/
 def selfTraitIdent : T → Option String
-  | .node "Type::Path" [] [.node "None" [] [], .node "Path" [] [.node "IgnL" [] [.node "None" [] []],
-      .node "List" [] [.node "PathSegment" [] [.node "Ident" [x] [], _]]]] => some x
+  | .node "Type::Path" [] [.node "None" [] [], p] =>
+      (match lastSegOf p with
+       | some (.node "PathSegment" [] [.node "Ident" [x] [], _]) => some x
+       | _ => none)
   | _ => none
 
 def helperTraitOfInherent (exampleItem : T) (idx nkeys : Nat) : Gen T :=
